@@ -68,7 +68,8 @@ def write_kw():
             f"Definition KWLIST : list string := {coq.slist(sorted(keyword.kwlist))}.\n"
             f"Definition SOFTKWLIST : list string := {coq.slist(sorted(keyword.softkwlist))}.\n"
             f"Definition TRANSPORT_UNSAFE : list string := {coq.slist(transport_unsafe())}.\n"
-            f"Definition INVALID_MODULE_EXTRA : list string := {coq.slist(invalid_module_extra())}.\n")
+            f"Definition INVALID_MODULE_EXTRA : list string := {coq.slist(invalid_module_extra())}.\n"
+            f"Definition IMPORTED_MODULE_NAMES : list string := {coq.slist(imported_module_names())}.\n")
     coq.write_gen("Kw", text)
 
 
